@@ -19,7 +19,10 @@ From Coq Require Import List NArith Bool PeanoNat Sorted.
 Import ListNotations.
 From RX Require Import Generated.
 From RX.Model Require Import Base CharClass Stream Tokenizer Doc Builder Parse Api.
-From RX.Proofs Require Import PositionProofs ErrPosStream ErrPosTokenizer ErrPosParse ErrPayload RangeShiftBuilder ErrShiftBase ErrShiftFinal ErrShiftMidCore ErrShiftMidFinal ErrShiftDtdFinal.
+From RX.Proofs Require Import PositionProofs ErrPosStream ErrPosTokenizer ErrPosParse ErrPayload RangeShiftBuilder ErrShiftBase ErrShiftFinal ErrShiftMidCore ErrShiftMidFinal ErrShiftDtdFinal ErrShiftEntFinal ErrShiftSubCont ErrShiftSubFinal.
+From RX Require GeneratedDisplay.
+From RX.Model Require ErrDisplay.
+From RX.Proofs Require ErrDisplayProofs.
 Open Scope N_scope.
 
 (* ---- Proofs/PositionProofs.v ---- *)
@@ -218,8 +221,126 @@ Theorem C14_parse_err_shift_dtd_lines :
 Proof. exact parse_err_shift_dtd_lines. Qed.
 Print Assumptions C14_parse_err_shift_dtd_lines.
 
+(* ---- Proofs/ErrShiftEntFinal.v ---- *)
+Theorem C14_parse_err_shift_ent :
+  forall pre ws post opt e,
+  forallb byte_is_space ws = true -> valid_utf8_b post = true -> post <> [] ->
+  dtd_point pre post opt ->
+  parse (pre ++ post) opt = Err e ->
+  exists e', parse (pre ++ ws ++ post) opt = Err e' /\
+    err_kind e = err_kind e' /\
+    (has_pos e = false -> e' = e) /\
+    (has_pos e = true -> exists off, text_pos_at (pre ++ post) off = Ok (error_pos e) /\
+        ((off < blen pre /\ error_pos e' = error_pos e) \/
+         (blen pre <= off /\ text_pos_at (pre ++ ws ++ post) (off + blen ws) = Ok (error_pos e')))).
+Proof. exact parse_err_shift_ent. Qed.
+Print Assumptions C14_parse_err_shift_ent.
+
+Theorem C14_parse_ok_shift_ent :
+  forall pre ws post opt d,
+  forallb byte_is_space ws = true -> valid_utf8_b post = true -> post <> [] ->
+  dtd_point pre post opt ->
+  parse (pre ++ post) opt = Ok d ->
+  parse (pre ++ ws ++ post) opt = Ok (mid_doc (blen pre) (blen ws) d).
+Proof. exact parse_ok_shift_ent. Qed.
+Print Assumptions C14_parse_ok_shift_ent.
+
+Theorem C14_parse_err_shift_ent_spaces :
+  forall k pre post opt e,
+  valid_utf8_b post = true -> post <> [] -> dtd_point pre post opt ->
+  parse (pre ++ post) opt = Err e -> has_pos e = true ->
+  exists e' rP cP, parse (pre ++ repeat 32 k ++ post) opt = Err e' /\ err_kind e = err_kind e' /\
+    text_pos_at (pre ++ post) (blen pre) = Ok (rP, cP) /\
+    exists off, text_pos_at (pre ++ post) off = Ok (error_pos e) /\
+      ((off < blen pre /\ error_pos e' = error_pos e) \/
+       (blen pre <= off /\
+        error_pos e' = (fst (error_pos e),
+                        if fst (error_pos e) =? rP then N.of_nat k + snd (error_pos e) else snd (error_pos e)))).
+Proof. exact parse_err_shift_ent_spaces. Qed.
+Print Assumptions C14_parse_err_shift_ent_spaces.
+
+Theorem C14_parse_err_shift_ent_lines :
+  forall k pre post opt e, (0 < k)%nat ->
+  valid_utf8_b post = true -> post <> [] -> dtd_point pre post opt ->
+  parse (pre ++ post) opt = Err e -> has_pos e = true ->
+  exists e' rP cP, parse (pre ++ repeat 10 k ++ post) opt = Err e' /\ err_kind e = err_kind e' /\
+    text_pos_at (pre ++ post) (blen pre) = Ok (rP, cP) /\
+    exists off, text_pos_at (pre ++ post) off = Ok (error_pos e) /\
+      ((off < blen pre /\ error_pos e' = error_pos e) \/
+       (blen pre <= off /\
+        error_pos e' = (N.of_nat k + fst (error_pos e),
+                        if fst (error_pos e) =? rP then snd (error_pos e) - (cP - 1) else snd (error_pos e)))).
+Proof. exact parse_err_shift_ent_lines. Qed.
+Print Assumptions C14_parse_err_shift_ent_lines.
+
+(* ---- Proofs/ErrShiftSubFinal.v ---- *)
+Theorem C14_parse_err_shift_sub :
+  forall pre ws post opt e,
+  forallb byte_is_space ws = true -> valid_utf8_b post = true -> post <> [] ->
+  subset_point pre post opt ->
+  parse (pre ++ post) opt = Err e ->
+  exists e', parse (pre ++ ws ++ post) opt = Err e' /\
+    err_kind e = err_kind e' /\
+    (has_pos e = false -> e' = e) /\
+    (has_pos e = true -> exists off, text_pos_at (pre ++ post) off = Ok (error_pos e) /\
+        ((off < blen pre /\ error_pos e' = error_pos e) \/
+         (blen pre <= off /\ text_pos_at (pre ++ ws ++ post) (off + blen ws) = Ok (error_pos e')))).
+Proof. exact parse_err_shift_sub. Qed.
+Print Assumptions C14_parse_err_shift_sub.
+
+Theorem C14_parse_ok_shift_sub :
+  forall pre ws post opt d,
+  forallb byte_is_space ws = true -> valid_utf8_b post = true -> post <> [] ->
+  subset_point pre post opt ->
+  parse (pre ++ post) opt = Ok d ->
+  parse (pre ++ ws ++ post) opt = Ok (mid_doc (blen pre) (blen ws) d).
+Proof. exact parse_ok_shift_sub. Qed.
+Print Assumptions C14_parse_ok_shift_sub.
+
+Theorem C14_parse_err_shift_sub_spaces :
+  forall k pre post opt e,
+  valid_utf8_b post = true -> post <> [] -> subset_point pre post opt ->
+  parse (pre ++ post) opt = Err e -> has_pos e = true ->
+  exists e' rP cP, parse (pre ++ repeat 32 k ++ post) opt = Err e' /\ err_kind e = err_kind e' /\
+    text_pos_at (pre ++ post) (blen pre) = Ok (rP, cP) /\
+    exists off, text_pos_at (pre ++ post) off = Ok (error_pos e) /\
+      ((off < blen pre /\ error_pos e' = error_pos e) \/
+       (blen pre <= off /\
+        error_pos e' = (fst (error_pos e),
+                        if fst (error_pos e) =? rP then N.of_nat k + snd (error_pos e) else snd (error_pos e)))).
+Proof. exact parse_err_shift_sub_spaces. Qed.
+Print Assumptions C14_parse_err_shift_sub_spaces.
+
+Theorem C14_parse_err_shift_sub_lines :
+  forall k pre post opt e, (0 < k)%nat ->
+  valid_utf8_b post = true -> post <> [] -> subset_point pre post opt ->
+  parse (pre ++ post) opt = Err e -> has_pos e = true ->
+  exists e' rP cP, parse (pre ++ repeat 10 k ++ post) opt = Err e' /\ err_kind e = err_kind e' /\
+    text_pos_at (pre ++ post) (blen pre) = Ok (rP, cP) /\
+    exists off, text_pos_at (pre ++ post) off = Ok (error_pos e) /\
+      ((off < blen pre /\ error_pos e' = error_pos e) \/
+       (blen pre <= off /\
+        error_pos e' = (N.of_nat k + fst (error_pos e),
+                        if fst (error_pos e) =? rP then snd (error_pos e) - (cP - 1) else snd (error_pos e)))).
+Proof. exact parse_err_shift_sub_lines. Qed.
+Print Assumptions C14_parse_err_shift_sub_lines.
+
+Theorem C14_parse_err_shift_prolog :
+  forall pre ws post opt e,
+  forallb byte_is_space ws = true -> valid_utf8_b post = true -> post <> [] ->
+  prolog_point pre post opt ->
+  parse (pre ++ post) opt = Err e ->
+  exists e', parse (pre ++ ws ++ post) opt = Err e' /\
+    err_kind e = err_kind e' /\
+    (has_pos e = false -> e' = e) /\
+    (has_pos e = true -> exists off, text_pos_at (pre ++ post) off = Ok (error_pos e) /\
+        ((off < blen pre /\ error_pos e' = error_pos e) \/
+         (blen pre <= off /\ text_pos_at (pre ++ ws ++ post) (off + blen ws) = Ok (error_pos e')))).
+Proof. exact parse_err_shift_prolog. Qed.
+Print Assumptions C14_parse_err_shift_prolog.
+
 (* ---- Proofs/ErrPosTokenizer.v ---- *)
-Module G4.
+Module G6.
 Local Notation token := Tokenizer.token.
 Theorem C14_tokenizer_errors_positioned :
   forall text (C : Type) (ev : token -> C -> res C) dtd c e,
@@ -228,7 +349,7 @@ Theorem C14_tokenizer_errors_positioned :
 Proof. exact tokenizer_errors_positioned. Qed.
 Print Assumptions C14_tokenizer_errors_positioned.
 
-End G4.
+End G6.
 
 (* ---- Proofs/ErrPosParse.v ---- *)
 Theorem C14_token_errors_positioned :
@@ -253,3 +374,37 @@ Theorem C14_parse_error_payload_from_source :
   valid_utf8_b text = true -> parse text opt = Err e -> payload_ok text e.
 Proof. exact parse_error_payload_from_source. Qed.
 Print Assumptions C14_parse_error_payload_from_source.
+
+(* ---- Proofs/ErrDisplayProofs.v ---- *)
+Module G9.
+Import RX.GeneratedDisplay. Import RX.Model.ErrDisplay. Import RX.Proofs.ErrShiftBase. Import RX.Proofs.ErrDisplayProofs. Local Open Scope list_scope.
+Theorem C14_display_table_complete :
+  forall e,
+  exists ps, dlookup (error_name e) display_table = Some ps /\ pieces_fit ps (error_fields e) = true.
+Proof. exact display_table_complete. Qed.
+Print Assumptions C14_display_table_complete.
+
+Theorem C14_display_pos :
+  forall e, has_pos e = true ->
+  exists pre post, forall p', error_display (set_pos e p') = pre ++ show_pos p' ++ post.
+Proof. exact display_pos. Qed.
+Print Assumptions C14_display_pos.
+
+Theorem C14_display_positionless :
+  forall e, has_pos e = false ->
+  exists s, dlookup (error_name e) display_table = Some [DLit s] /\ error_display e = b s.
+Proof. exact display_positionless. Qed.
+Print Assumptions C14_display_positionless.
+
+Theorem C14_read_show_pos :
+  forall p, read_pos (show_pos p) = Some p.
+Proof. exact read_show_pos. Qed.
+Print Assumptions C14_read_show_pos.
+
+Theorem C14_display_payload :
+  forall e s, quoted_payload e = true -> In (FStr s) (error_fields e) ->
+  exists pre post, error_display e = pre ++ [39] ++ s ++ [39] ++ post.
+Proof. exact display_payload. Qed.
+Print Assumptions C14_display_payload.
+
+End G9.
